@@ -909,8 +909,12 @@ class Merger:
             self.logger.debug(
                 "Merged document is now:", prefix="Merger::merge_with:  ",
                 data=self.data, footer="     ***** ***** *****")
-            if isinstance(rhs, (dict, list, CommentedSet, set)):
-                # Only Scalar values need further processing
+            if (isinstance(rhs, (dict, list, CommentedSet, set))
+                and len(insert_at) < 1
+            ):
+                # RHS has become the whole document; only Scalar values and
+                # RHS documents which belong at a deeper --mergeat|-m
+                # location need further processing.
                 return
 
         # Resolve any anchor conflicts
